@@ -252,9 +252,9 @@ func specIsHelperName(name string) bool {
 //@   ensures[C03] frame: sameExcept(c, old(c), "code", "sliceAssignmentHelperRequired")
 //
 //@ func (*converter).FuncStart
-//@   loop 1 invariant[C02] lines-so-far: len(c.code) == len(old(c.code)) + 2 + rangeindex && samePrefix(old(c.code), c.code) && c.code[len(old(c.code))] == name + "() {"
-//@   loop 1 invariant[C02] params-so-far: forall(k, 0, rangeindex + 1, c.code[len(old(c.code)) + 1 + k] == "local " + specAssign(specName(true, c.funcCounter, params[k], false), "${" + itoa(k + 1) + "}"))
-//@   loop 1 invariant[C02] frame: sameExcept(c, old(c), "code", "funcs", "funcCounter") && c.funcCounter == old(c.funcCounter) + 1 && appended(c.funcs, old(c.funcs), funcInfoOf(name))
+//@   loop @"range params" invariant[C02] lines-so-far: len(c.code) == len(old(c.code)) + 2 + rangeindex && samePrefix(old(c.code), c.code) && c.code[len(old(c.code))] == name + "() {"
+//@   loop @"range params" invariant[C02] params-so-far: forall(k, 0, rangeindex + 1, c.code[len(old(c.code)) + 1 + k] == "local " + specAssign(specName(true, c.funcCounter, params[k], false), "${" + itoa(k + 1) + "}"))
+//@   loop @"range params" invariant[C02] frame: sameExcept(c, old(c), "code", "funcs", "funcCounter") && c.funcCounter == old(c.funcCounter) + 1 && appended(c.funcs, old(c.funcs), funcInfoOf(name))
 //@   ensures[C02] header: len(c.code) == len(old(c.code)) + 1 + len(params) && samePrefix(old(c.code), c.code) && c.code[len(old(c.code))] == name + "() {"
 //@   ensures[C02,C08] parameter-binding: forall(k, 0, len(params), c.code[len(old(c.code)) + 1 + k] == "local " + specAssign(specName(true, c.funcCounter, params[k], false), "${" + itoa(k + 1) + "}"))
 //@   ensures[C02] new-mangling-prefix: c.funcCounter == old(c.funcCounter) + 1 && appended(c.funcs, old(c.funcs), funcInfoOf(name)) && result == nil
@@ -266,8 +266,8 @@ func specIsHelperName(name string) bool {
 //@   ensures[C02] frame: sameExcept(c, old(c), "code", "funcs")
 //
 //@ func (*converter).Return
-//@   loop 1 invariant[C02] registers-so-far: len(c.code) == len(old(c.code)) + 1 + rangeindex && samePrefix(old(c.code), c.code) && forall(k, 0, rangeindex + 1, c.code[len(old(c.code)) + k] == specAssign("_rv" + itoa(k), values[k].value))
-//@   loop 1 invariant[C02] frame: sameExcept(c, old(c), "code")
+//@   loop @"range values" invariant[C02] registers-so-far: len(c.code) == len(old(c.code)) + 1 + rangeindex && samePrefix(old(c.code), c.code) && forall(k, 0, rangeindex + 1, c.code[len(old(c.code)) + k] == specAssign("_rv" + itoa(k), values[k].value))
+//@   loop @"range values" invariant[C02] frame: sameExcept(c, old(c), "code")
 //@   ensures[C02,C08] registers-in-order: len(c.code) == len(old(c.code)) + len(values) + 1 && samePrefix(old(c.code), c.code) && forall(k, 0, len(values), c.code[len(old(c.code)) + k] == specAssign("_rv" + itoa(k), values[k].value))
 //@   ensures[C02] then-return: c.code[len(old(c.code)) + len(values)] == "return" && result == nil
 //@   ensures[C02] frame: sameExcept(c, old(c), "code")
@@ -393,9 +393,9 @@ func specIsHelperName(name string) bool {
 //@   ensures[C01] parenthesised: result == "(" + value + ")" && err == nil && sameExcept(c, old(c))
 //
 //@ func (*converter).SliceInstantiation
-//@   loop 1 invariant[C03] words-so-far: vals == specSliceVals(values, rangeindex + 1)
-//@   loop 1 invariant[C03] two-lines-so-far: appended(c.code, old(c.code), "_dvc=$((${_dvc}+1))", specAssign(specName(len(c.funcs) > 0, c.funcCounter, specHelperName(old(c.varCounter)), false), "_dv${_dvc}"))
-//@   loop 1 invariant[C03] frame: sameExcept(c, old(c), "code", "varCounter") && c.varCounter == old(c.varCounter) + 1
+//@   loop @"range values" invariant[C03] words-so-far: vals == specSliceVals(values, rangeindex + 1)
+//@   loop @"range values" invariant[C03] two-lines-so-far: appended(c.code, old(c.code), "_dvc=$((${_dvc}+1))", specAssign(specName(len(c.funcs) > 0, c.funcCounter, specHelperName(old(c.varCounter)), false), "_dv${_dvc}"))
+//@   loop @"range values" invariant[C03] frame: sameExcept(c, old(c), "code", "varCounter") && c.varCounter == old(c.varCounter) + 1
 //@   ensures[C03] counter-bumped-before-naming: len(c.code) >= len(old(c.code)) + 2 && samePrefix(old(c.code), c.code) && c.code[len(old(c.code))] == "_dvc=$((${_dvc}+1))" && c.code[len(old(c.code)) + 1] == specAssign(specName(len(c.funcs) > 0, c.funcCounter, specHelperName(old(c.varCounter)), false), "_dv${_dvc}")
 //@   ensures[C03] empty-literal-two-lines: len(values) == 0 ==> len(c.code) == len(old(c.code)) + 2
 //@   ensures[C03] elements-in-order: len(values) > 0 ==> len(c.code) == len(old(c.code)) + 3 && c.code[len(old(c.code)) + 2] == "eval \"" + specRef(specName(len(c.funcs) > 0, c.funcCounter, specHelperName(old(c.varCounter)), false)) + "=(" + strings.TrimSpace(specSliceVals(values, len(values))) + ")\""
@@ -447,14 +447,14 @@ func specIsHelperName(name string) bool {
 //@   ensures[C03,C10] result-is-the-fresh-helper: result == specRef(specName(len(c.funcs) > 0, c.funcCounter, specHelperName(old(c.varCounter)), false)) && c.varCounter == old(c.varCounter) + 1
 //
 //@ func (*converter).FuncCall
-//@   loop 1 invariant[C02] quoted-so-far: len(args) == len(old(args)) && forall(k, 0, rangeindex + 1, args[k] == "\"" + old(args)[k] + "\"") && forall(k, rangeindex + 1, len(args), args[k] == old(args)[k])
-//@   loop 1 invariant[C02] frame: sameExcept(c, old(c))
-//@   loop 2 invariant[C02] copies-so-far: len(returnValues) == rangeindex + 1 && len(c.code) == len(old(c.code)) + 2 + rangeindex && samePrefix(old(c.code), c.code) && c.varCounter == old(c.varCounter) + rangeindex + 1
-//@   loop 2 invariant[C02] call-line-kept: c.code[len(old(c.code))] == name + " " + strings.Join(args, " ") && forall(k, 0, len(args), args[k] == "\"" + old(args)[k] + "\"") && len(args) == len(old(args))
-//@   loop 2 invariant[C02] register-copies: forall(k, 0, rangeindex + 1, c.code[len(old(c.code)) + 1 + k] == specAssign(specName(len(c.funcs) > 0, c.funcCounter, specHelperName(old(c.varCounter) + k), false), "${_rv" + itoa(k) + "}") && returnValues[k] == specRef(specName(len(c.funcs) > 0, c.funcCounter, specHelperName(old(c.varCounter) + k), false)))
-//@   loop 2 invariant[C02] frame: sameExcept(c, old(c), "code", "varCounter")
-//@   loop 3 invariant[C02] padding: len(returnValues) <= len(returnTypes) && (valueUsed ==> len(returnValues) == len(returnTypes))
-//@   loop 3 invariant[C02] copies-kept: valueUsed ==> forall(k, 0, len(returnTypes), returnValues[k] == specRef(specName(len(c.funcs) > 0, c.funcCounter, specHelperName(old(c.varCounter) + k), false)))
+//@   loop @"range argsCopy" invariant[C02] quoted-so-far: len(args) == len(old(args)) && forall(k, 0, rangeindex + 1, args[k] == "\"" + old(args)[k] + "\"") && forall(k, rangeindex + 1, len(args), args[k] == old(args)[k])
+//@   loop @"range argsCopy" invariant[C02] frame: sameExcept(c, old(c))
+//@   loop @"range returnTypes" invariant[C02] copies-so-far: len(returnValues) == rangeindex + 1 && len(c.code) == len(old(c.code)) + 2 + rangeindex && samePrefix(old(c.code), c.code) && c.varCounter == old(c.varCounter) + rangeindex + 1
+//@   loop @"range returnTypes" invariant[C02] call-line-kept: c.code[len(old(c.code))] == name + " " + strings.Join(args, " ") && forall(k, 0, len(args), args[k] == "\"" + old(args)[k] + "\"") && len(args) == len(old(args))
+//@   loop @"range returnTypes" invariant[C02] register-copies: forall(k, 0, rangeindex + 1, c.code[len(old(c.code)) + 1 + k] == specAssign(specName(len(c.funcs) > 0, c.funcCounter, specHelperName(old(c.varCounter) + k), false), "${_rv" + itoa(k) + "}") && returnValues[k] == specRef(specName(len(c.funcs) > 0, c.funcCounter, specHelperName(old(c.varCounter) + k), false)))
+//@   loop @"range returnTypes" invariant[C02] frame: sameExcept(c, old(c), "code", "varCounter")
+//@   loop @"for len(returnValues) < len(returnTypes)" invariant[C02] padding: len(returnValues) <= len(returnTypes) && (valueUsed ==> len(returnValues) == len(returnTypes))
+//@   loop @"for len(returnValues) < len(returnTypes)" invariant[C02] copies-kept: valueUsed ==> forall(k, 0, len(returnTypes), returnValues[k] == specRef(specName(len(c.funcs) > 0, c.funcCounter, specHelperName(old(c.varCounter) + k), false)))
 //@   ensures[C02,C08] every-argument-one-quoted-word: len(args) == len(old(args)) && forall(k, 0, len(args), args[k] == "\"" + old(args)[k] + "\"")
 //@   ensures[C02] call-line-first: len(c.code) >= len(old(c.code)) + 1 && samePrefix(old(c.code), c.code) && c.code[len(old(c.code))] == name + " " + strings.Join(args, " ")
 //@   ensures[C02] as-many-results-as-declared: err == nil && len(result) == len(returnTypes)
@@ -483,11 +483,11 @@ func specCommand(name string, n int, words string) string {
 // the commands are joined left to right by " | "; as a statement the pipeline is the emitted
 // line, as a value its output is captured into a fresh helper and $? into the next one.
 //@ func (*converter).AppCall
-//@   loop 2 invariant[C18] words-so-far: len(argsCopy) == len(call.args) && forall(k, 0, rangeindex + 1, argsCopy[k] == specWord(call.args[k])) && forall(k, rangeindex + 1, len(argsCopy), argsCopy[k] == call.args[k])
-//@   loop 1 invariant[C18] commands-so-far: calls(strings_Join) == rangeindex + 1 && len(callStrings) == rangeindex + 1
-//@   loop 1 invariant[C18] words-of-each-command: forall(k, 0, calls(strings_Join), arg(strings_Join, k, 1) == " " && len(arg(strings_Join, k, 0)) == len(callsCopy[k].args) && forall(i, 0, len(callsCopy[k].args), arg(strings_Join, k, 0)[i] == specWord(callsCopy[k].args[i])))
-//@   loop 1 invariant[C18] command-k-is-name-and-words: forall(k, 0, len(callStrings), callStrings[k] == specCommand(callsCopy[k].name, len(callsCopy[k].args), res(strings_Join, k, 0)))
-//@   loop 1 invariant[C18] frame: sameExcept(c, old(c))
+//@   loop @"range argsCopy" invariant[C18] words-so-far: len(argsCopy) == len(call.args) && forall(k, 0, rangeindex + 1, argsCopy[k] == specWord(call.args[k])) && forall(k, rangeindex + 1, len(argsCopy), argsCopy[k] == call.args[k])
+//@   loop @"range callsCopy" invariant[C18] commands-so-far: calls(strings_Join) == rangeindex + 1 && len(callStrings) == rangeindex + 1
+//@   loop @"range callsCopy" invariant[C18] words-of-each-command: forall(k, 0, calls(strings_Join), arg(strings_Join, k, 1) == " " && len(arg(strings_Join, k, 0)) == len(callsCopy[k].args) && forall(i, 0, len(callsCopy[k].args), arg(strings_Join, k, 0)[i] == specWord(callsCopy[k].args[i])))
+//@   loop @"range callsCopy" invariant[C18] command-k-is-name-and-words: forall(k, 0, len(callStrings), callStrings[k] == specCommand(callsCopy[k].name, len(callsCopy[k].args), res(strings_Join, k, 0)))
+//@   loop @"range callsCopy" invariant[C18] frame: sameExcept(c, old(c))
 //@   ensures[C18] commands-in-order-joined-by-pipes: calls(strings_Join) == len(calls) + 1 && arg(strings_Join, len(calls), 1) == " | " && len(arg(strings_Join, len(calls), 0)) == len(calls) && forall(k, 0, len(calls), arg(strings_Join, k, 1) == " " && len(arg(strings_Join, k, 0)) == len(calls[k].args) && forall(i, 0, len(calls[k].args), arg(strings_Join, k, 0)[i] == specWord(calls[k].args[i])) && arg(strings_Join, len(calls), 0)[k] == specCommand(calls[k].name, len(calls[k].args), res(strings_Join, k, 0)))
 //@   ensures[C18] statement-form-runs-the-pipeline: !valueUsed ==> appended(c.code, old(c.code), res(strings_Join, calls(strings_Join) - 1, 0)) && len(result0) == 3 && result0[0] == "" && result0[1] == "" && result0[2] == "0" && err == nil && sameExcept(c, old(c), "code")
 //@   ensures[C18] value-form-captures-output-then-status: valueUsed ==> appended(c.code, old(c.code), specAssign(specName(len(c.funcs) > 0, c.funcCounter, specHelperName(old(c.varCounter)), false), "$(" + res(strings_Join, calls(strings_Join) - 1, 0) + ")"), specAssign(specName(len(c.funcs) > 0, c.funcCounter, specHelperName(old(c.varCounter) + 1), false), "$?"))
